@@ -287,7 +287,7 @@ func main() {
 		return
 	}
 	r := report.New("C05", tier, "model_checking")
-	r.Rule = "E1: every structure tree of the 7 encodable types (members 0..2(3), ring/line lengths 0..2(3), collections nested to depth 3) x 12 rotations of a list of twelve 64-bit patterns (full 144 product for points) x {XDR,NDR}: Encode bytes == independent OGC serializer, Decode(Encode) bit-identical, stream Read/Write, hex lower/upper, returned bytes unchanged by later Encode calls; members of 31..5000 vertices (around and beyond the reader's chunk sizes); decode side: every assignment of a byte order to every nested element (all 2^n for n<=8 elements, uniform + single/double flips above). Non-trivial = cases with >=2 nested elements or a non-finite / signed-zero / subnormal coordinate. Many members: 31..1000 members of each multi type / rings / one-point collections, collection chains nested 8..200 deep, complete binary trees of collections of depth 3..7."
+	r.Rule = "E1: every structure tree of the 7 encodable types (members 0..2(3), ring/line lengths 0..2(3), collections nested to depth 3) x 12 rotations of a list of twelve 64-bit patterns (full 144 product for points) x {XDR,NDR}: Encode bytes == independent OGC serializer, Decode(Encode) bit-identical, stream Read/Write, hex lower/upper, returned bytes unchanged by later Encode calls; members of 31..5000 vertices (around and beyond the reader's chunk sizes); decode side: every assignment of a byte order to every nested element (all 2^n for n<=8 elements, uniform + single/double flips above). Non-trivial = cases with >=2 nested elements or a non-finite / signed-zero / subnormal coordinate. Large members up to 70000 vertices (hex texts beyond 1 MiB). Many members: 31..70000 members of each multi type / rings / one-point collections, collection chains nested 8..200 deep, complete binary trees of collections of depth 3..7."
 	cfg := geomgen.Config{MaxMembers: 2, Lens: []int{0, 1, 2}, FlatMax: 2, PolyRings: 2, Depth: 3, GCMembers: 2}
 	if tier == "thorough" {
 		cfg = geomgen.Config{MaxMembers: 3, Lens: []int{0, 1, 2, 3}, FlatMax: 3, PolyRings: 2, Depth: 3, GCMembers: 3}
@@ -377,7 +377,10 @@ func main() {
 	})
 	// large members: counts around the reader's chunk size and well beyond it
 	for _, kind := range []geomgen.Kind{geomgen.KLineString, geomgen.KMultiPoint, geomgen.KPolygon, geomgen.KMultiLineString, geomgen.KMultiPolygon, geomgen.KCollection} {
-		for _, sz := range []int{31, 32, 33, 255, 256, 257, 300, 511, 512, 513, 700, 1025, 5000} {
+		for _, sz := range []int{31, 32, 33, 255, 256, 257, 300, 511, 512, 513, 700, 1025, 5000, 32768, 40000, 70000} {
+			if sz > 5000 && kind != geomgen.KLineString && kind != geomgen.KMultiPoint {
+				continue
+			}
 			for order := 0; order < 2; order++ {
 				c := Case{Skel: geomgen.Skel{Kind: kind}, Rot: sz % 12, Order: order, Large: sz}
 				n++
@@ -394,7 +397,10 @@ func main() {
 	// many members: wide, deep and tree-shaped geometries
 	var many []Case
 	for _, kind := range []geomgen.Kind{geomgen.KMultiLineString, geomgen.KPolygon, geomgen.KMultiPolygon, geomgen.KCollection} {
-		for _, sz := range []int{31, 32, 33, 40, 64, 65, 100, 257, 1000} {
+		for _, sz := range []int{31, 32, 33, 40, 64, 65, 100, 257, 1000, 65536, 65537, 70000} {
+			if sz > 1000 && kind != geomgen.KCollection {
+				continue
+			}
 			many = append(many, Case{Skel: geomgen.Skel{Kind: kind}, Many: sz, Shape: "wide"})
 		}
 	}
